@@ -85,6 +85,9 @@ class Construct(Harness):
                                                    "total_len": len(pkt)}, inputs=inputs)
 
 
+PRE = [[], [("int", 3)], [("int", 16)], [("bytes", 8), ("int", 5)], [("int", 48)], [("int", "all")], [("bytes", "all")]]
+
+
 class Accessors(Harness):
     kind = "accessors"
 
@@ -95,15 +98,28 @@ class Accessors(Harness):
         buf = bv.fresh_bytes("P", n)
         raw = lib.RawPacketData(buf)
         obl = []
-        hv = raw.header_values
+        # the accessors are evaluated on a fresh packet, or for the first time AFTER the packet has been (partly or wholly) read
+        pre = PRE[ctx.choose("pre", len(PRE))] if self.job["params"].get("pre") else None
+        exc = None
+        if pre is not None:
+            for op, k in pre:
+                k = 8 * n if k == "all" else k
+                if k > 8 * n:
+                    continue
+                (raw.read_as_int if op == "int" else raw.read_as_bytes)(k)
+        pos0 = raw.pos
+        try:
+            hv = raw.header_values
+        except Exception as e:      # noqa: BLE001 - library outcome
+            return result("exc", [("accessors raise nothing", False)], observe={"exc": type(e).__name__}, inputs={"buf": buf, "pre": pre})
         for (f, w), got in zip(FIELDS, hv):
             gt = got.t if isinstance(got, bv.SymInt) else z3.BitVecVal(got, W)
             obl.append((f"accessor {f}", gt == z3.ZeroExt(W - w, layout_bits(buf.items, START[f], w))))
             g2 = getattr(raw, f)
             obl.append((f"accessor {f} attribute == tuple entry", g2 is got or (isinstance(g2, bv.SymInt) and z3.eq(g2.t, gt))))
         obl.append(("data_length", hv[6] == n - 7 if isinstance(hv[6], int) else False))
-        obl.append(("cursor untouched", raw.pos == 0))
-        return result("ok", obl, observe={"header_values": list(hv)}, inputs={"buf": buf})
+        obl.append(("cursor untouched by the accessors", raw.pos == pos0))
+        return result("ok", obl, observe={"header_values": list(hv)}, inputs={"buf": buf, "pre": pre})
 
 
 class Twin(Construct):
@@ -131,6 +147,7 @@ def jobs(tier):
                     "must_reach": ["ValueError"] + (["constructed"] if 1 <= n <= 65536 else [])})
     for n in META["bounds"][tier]["converse buffers"]:
         out.append({"name": f"accessors-n{n}", "h": "accessors", "params": {"n": n}, "must_reach": ["ok"]})
+        out.append({"name": f"accessors-after-reads-n{n}", "h": "accessors", "params": {"n": n, "pre": True}, "must_reach": ["ok"]})
     from checks import c02
     out += c02.reframe_jobs(tier)
     return out
@@ -167,7 +184,14 @@ def concrete(req):
                 "total_len": len(pkt), "data_ok": bytes(pkt[6:]) == data}
     if req["kind"] == "accessors":
         raw = packets.RawPacketData(bytes.fromhex(i["buf"]["hex"]))
-        return {"cls": "ok", "header_values": enc_concrete(list(raw.header_values))}
+        for op, k in i.get("pre") or []:
+            k = 8 * len(raw) if k == "all" else k
+            if k <= 8 * len(raw):
+                (raw.read_as_int if op == "int" else raw.read_as_bytes)(k)
+        try:
+            return {"cls": "ok", "header_values": enc_concrete(list(raw.header_values))}
+        except Exception as e:   # noqa: BLE001
+            return {"cls": "ok", "exc": type(e).__name__}
     from checks import c02
     return c02.concrete(req)
 
@@ -197,7 +221,8 @@ def judge(req, got):
         buf = bytes.fromhex(i["buf"]["hex"])
         bits = "".join(f"{b:08b}" for b in buf)
         want = [int(bits[START[f]:START[f] + w], 2) for f, w in FIELDS] + [len(buf) - 7]
-        return ("not-reproduced", "agrees") if got.get("header_values") == want else ("reproduced", f"accessors {got.get('header_values')} != {want} on {buf.hex()}")
+        after = f" after reads {i['pre']}" if i.get("pre") else ""
+        return ("not-reproduced", "agrees") if got.get("header_values") == want else ("reproduced", f"accessors {got.get('header_values') or got.get('exc')} != {want} on {buf.hex()}{after}")
     from checks import c02
     return c02.judge(req, got)
 
